@@ -281,13 +281,28 @@ def _run_cell(prop, cfg, timeout_s, tier, replay=None):
     cx = CellCtx(prop, cfg, timeout_s, replay=replay, tier=tier)
     t0 = time.time()
     err = None
-    import contextlib, io
+    import contextlib, io, signal
     sink = io.StringIO()
+    # wall-clock budget per cell (a changed tree can make the symbolic execution of one cell blow up): inconclusive, never a pass
+    budget = int(os.environ.get("VERIF_CELL_TIMEOUT", "900" if tier == "quick" else "3600"))
+
+    class CellTimeout(BaseException):  # not an Exception: must not be swallowed by the cells' own handlers
+        pass
+
+    def _on_alarm(signum, frame):
+        raise CellTimeout(f"cell exceeded its wall-clock budget of {budget}s")
+    try:
+        signal.signal(signal.SIGALRM, _on_alarm)
+        signal.alarm(budget)
+    except Exception:  # noqa: BLE001 - not in a main thread
+        pass
     try:
         with contextlib.redirect_stdout(sink):
             mod.run_cell(cfg, cx)
         if replay is not None and str(replay[0]).startswith("raises:") and cx.replay_outcome is None:
             cx.replay_outcome = (False, "the real code did not raise")
+    except CellTimeout as e:
+        err = {"kind": "timeout", "msg": str(e), "tb": ""}
     except interp.Unsupported as e:
         err = {"kind": "unsupported", "msg": str(e), "tb": traceback.format_exc()[-3000:]}
     except Exception as e:  # noqa: BLE001
@@ -310,6 +325,11 @@ def _run_cell(prop, cfg, timeout_s, tier, replay=None):
                 cx.replay_outcome = (True, f"real code raises {emsg[:200]} at {where}")
         else:
             err = {"kind": "exception", "msg": repr(e), "tb": traceback.format_exc()[-3000:]}
+    finally:
+        try:
+            signal.alarm(0)
+        except Exception:  # noqa: BLE001
+            pass
     return {
         "cfg": cfg, "records": cx.records, "samples": cx.samples, "error": err,
         "nontrivial": sorted(cx.nontrivial_hashes), "validated": cx.validated, "notes": cx.notes,
